@@ -9,7 +9,7 @@ MAIN = os.path.join(env.REPO, 'main.py')
 CHILD = r'''
 import sys, os, json, time
 spec = json.load(open(os.environ['WDV_CHILD_SPEC']))
-json.dump({'argv': sys.argv[1:], 'wayland_debug': os.environ.get('WAYLAND_DEBUG')}, open(spec['report'], 'w'))
+json.dump({'argv': sys.argv[1:], 'wayland_debug': os.environ.get('WAYLAND_DEBUG'), 'ld': os.environ.get('LD_LIBRARY_PATH')}, open(spec['report'], 'w'))
 if spec.get('stdout'):
     os.write(1, spec['stdout'].encode('utf-8', 'surrogateescape'))
 for chunk, delay in spec['chunks']:
@@ -38,7 +38,7 @@ sys.exit(r.returncode)
 
 PROBE = r'''
 import sys, os, json
-json.dump(sys.argv, open(os.environ['WDV_PROBE_OUT'], 'w'))
+json.dump([[ord(c) for c in w] for w in sys.argv], open(os.environ['WDV_PROBE_OUT'], 'w'))      # code points: text would hide lone surrogates
 '''
 
 
